@@ -113,3 +113,17 @@ mut("c07-v4-rx-id-offset", "C07", "bellows/ezsp/v4/__init__.py",
 mut("c07-v8-rx-id-8bit", "C07", "bellows/ezsp/v8/__init__.py",
     "        frame_id, data = t.uint16_t.deserialize(data)\n", "        frame_id, data = data[0], data[2:]\n")
 mut("c07-duplicate-frame-id", "C07", "bellows/ezsp/v7/commands.py", "\"nop\": (\n        0x05,", "\"nop\": (\n        0x06,")
+
+# ---- C08 -------------------------------------------------------------------------------
+EZ = "bellows/ezsp/__init__.py"
+PROTO = "bellows/ezsp/protocol.py"
+mut("c08-catch-all-removed", "C08", EZ,
+    "        try:\n            self._protocol(data)\n        except Exception:\n            LOGGER.warning(\"Failed to parse frame, ignoring\")",
+    "        self._protocol(data)")
+mut("c08-id-assertion-removed", "C08", PROTO, "                assert expected_id == frame_id\n", "")
+mut("c08-parse-failure-still-dispatched", "C08", PROTO,
+    "                exc_info=True,\n            )\n            raise\n", "                exc_info=True,\n            )\n            result = []\n")
+mut("c08-unknown-id-raises-keyerror-late", "C08", PROTO,
+    "        if sequence in self._awaiting:\n            expected_id, schema, future = self._awaiting.pop(sequence)",
+    "        if sequence in self._awaiting or (sequence - 1) % 256 in self._awaiting:\n            expected_id, schema, future = self._awaiting.pop(sequence if sequence in self._awaiting else (sequence - 1) % 256)")
+# (removing the empty-frame guard is behaviourally equivalent: the catch-all contains the IndexError)
